@@ -43,7 +43,6 @@ var notApplicable = map[string]string{
 // check is registered yet.
 var notBuilt = map[string]string{
 	"C13": "not built: world W2 with recording component stubs was not built; see DESIGN.md",
-	"C43": "not built: world W5 (real HLS server on a simulated transport) was not built; see DESIGN.md",
 }
 
 func cmdManifest() {
